@@ -184,9 +184,17 @@ def _play(obs, cls, spec, script, reqs, record_only=False):
         jac = kw.get("jac")
         cons = kw.get("constraints") or []
         epoch_point, epoch_start = None, 0
+        popbuf = np.zeros((2, POOL.shape[1]))
+        xbuf, reuse_x = np.zeros(POOL.shape[1]), sum(script) % 2 == 0
+        if reuse_x:
+            obs.count("scripts_with_reused_point_array")
         for ri in script:
             kind, p = reqs[ri]
-            x = POOL[p].copy()
+            if reuse_x:
+                xbuf[...] = POOL[p]              # SLSQP and friends hand over one work array that they update in place
+                x = xbuf
+            else:
+                x = POOL[p].copy()
             if epoch_point is None or epoch_point != p:
                 _close_epoch(obs, ev, epoch_start, spec, state, script, reqs)
                 epoch_point, epoch_start = p, len(ev.calls)
@@ -196,7 +204,13 @@ def _play(obs, cls, spec, script, reqs, record_only=False):
             if vec and kind in ("f", "C"):
                 obs.count("batch_requests")
                 pts = [p, (p + 1) % 3]
-                xb = POOL[pts].T.copy()          # (V, S)
+                if len(out) % 3 == 2:
+                    xb = POOL[pts].T.copy()      # (V, S), a fresh array as SciPy's DE hands over
+                else:
+                    # a population kept in one array that the algorithm updates in place between requests
+                    popbuf[...] = POOL[pts]
+                    xb = popbuf.T
+                    obs.count("batch_requests_in_reused_buffer")
                 got = fun(xb) if kind == "f" else cons[-1].fun(xb)
                 want = np.array([ref.functions(POOL[q]) for q in pts])     # (S, F)
                 want = want[:, 0] if kind == "f" else want[:, 1:].T
